@@ -39,7 +39,12 @@ The table is a list of flows, each identified by the match **as transmitted** an
   ("not meaningful"): this transcription does it for every defined command, as the code does; the flow's counters are not
   touched.  A table miss stores the frame and announces the id in the packet-in; which id is the switch's choice — the store
   and its allocation policy are C18's `BufPool.Pool` / `alloc` (shared component, proved there).
-* an undefined `command` is refused with `OFPFMFC_BAD_COMMAND` and nothing else happens. -/
+* an undefined `command` is refused with `OFPFMFC_BAD_COMMAND` and nothing else happens.
+* **output to the controller** (§3.3 "CONTROLLER: encapsulate and send the packet to the controller", §5.4.1 reason
+  `OFPR_ACTION`): each `output:CONTROLLER` among the actions applied to a packet — the actions of the flow it hit, or of the flow-mod
+  that releases it from a buffer — stores the packet and sends a packet-in with reason ACTION carrying the new buffer id; when this
+  happens during the release of a buffer the old buffer is freed only afterwards.  What the other actions do to the packet is outside
+  this transcription (C12); `output:TABLE` is not transcribed at all (histories whose flow-mods carry it are not covered). -/
 namespace Pox.Spec
 open Pox.OF Pox.FlowMod
 open Pox.BufPool (Pool alloc)
@@ -122,7 +127,7 @@ structure SFlowStat where
 inductive SOut where
   | flowRemoved (m : SRemoved)
   | error (etype code : Nat)
-  | packetIn (inPort : Nat) (bufferId : Option Nat)
+  | packetIn (inPort : Nat) (bufferId : Option Nat) (reason : Nat)
   | release (id : Nat) (frame : BFrame) (actions : List Action)
   | flowStats (l : List SFlowStat)
   | aggStats (packets bytes flows : Nat)
@@ -210,13 +215,35 @@ def account (hit : SFlow → Bool) (len now : Nat) : List SFlow → List SFlow
     if hit f then { f with packets := f.packets + 1, bytes := f.bytes + len, lastUsed := now } :: r
     else f :: account hit len now r
 
+/-- how many of the actions send the packet to the controller -/
+def toController (actions : List Action) : Nat :=
+  (actions.filter fun a => match a with
+    | .output q _ => q == OFPP_CONTROLLER
+    | .other _ _ => false).length
+
+/-- send the packet `f` to the controller `n` times: each time it is stored and announced with reason ACTION -/
+def sendToController (b : Pool BFrame) (f : BFrame) : Nat → Pool BFrame × List SOut
+  | 0 => (b, [])
+  | n + 1 =>
+    let a := alloc b f
+    let r := sendToController a.1 f n
+    (r.1, .packetIn f.inPort a.2 1 :: r.2)
+
+/-- the actions of the first flow satisfying `hit` -/
+def actionsOfHit (hit : SFlow → Bool) (fs : List SFlow) : List Action :=
+  match fs.find? hit with
+  | some f => f.actions
+  | none => []
+
 /-- a frame arrives on `inPort` -/
 def receive (t : STable) (p : PHdr) (inPort len : Nat) : STable × List SOut :=
   let hit := fun (f : SFlow) => matchHdr f.mtch (headers p inPort)
-  if t.flows.any hit then ({ t with flows := account hit len t.now t.flows }, [])
+  if t.flows.any hit then
+    let c := sendToController t.buffers { hdr := p, len := len, inPort := inPort } (toController (actionsOfHit hit t.flows))
+    ({ t with flows := account hit len t.now t.flows, buffers := c.1 }, c.2)
   else
     let a := alloc t.buffers { hdr := p, len := len, inPort := inPort }
-    ({ t with buffers := a.1 }, [.packetIn inPort a.2])
+    ({ t with buffers := a.1 }, [.packetIn inPort a.2 0])
 
 def statOf (now : Nat) (f : SFlow) : SFlowStat :=
   { mtch := f.mtch, durSec := (now - f.installed) / 1000, durNsec := (now - f.installed) % 1000 * 1000000,
@@ -233,7 +260,9 @@ def stored (t : STable) (id : Nat) : Option BFrame := if id = 0 then none else (
 /-- apply `actions` to the packet stored under `id` and release the buffer -/
 def applyBuffer (t : STable) (id : Nat) (actions : List Action) : STable × List SOut :=
   match stored t id with
-  | some f => ({ t with buffers := { t.buffers with slots := t.buffers.slots.set (id - 1) none } }, [.release id f actions])
+  | some f =>
+    let c := sendToController t.buffers f (toController actions)
+    ({ t with buffers := { c.1 with slots := c.1.slots.set (id - 1) none } }, c.2 ++ [.release id f actions])
   | none =>
     if id ≠ 0 ∧ id - 1 < t.buffers.slots.length then (t, [.error OFPET_BAD_REQUEST OFPBRC_BUFFER_EMPTY])
     else (t, [.error OFPET_BAD_REQUEST OFPBRC_BUFFER_UNKNOWN])
